@@ -72,6 +72,29 @@ def canon (le : Hit → Hit → Bool) (full : List Hit) (r : List Hit) : String 
 structure St where
   col : Coll := []
   maxLimit : Nat := 75
+  /-- RpcRetries of a fault cluster (`newcluster … net=ctl retries=R`) -/
+  retries : Nat := 1
+
+/-- `ans=<0|1,…>`: which shards' servers answered during this op (measured by the harness).  The
+availability flags of the model's shards are these bits for the duration of the op. -/
+def parseAns (s : String) : Option (List Bool) := (splitNE s ",").mapM fun b => if b == "1" then some true else if b == "0" then some false else none
+
+def withAns (col : Coll) (ans : List Bool) : Coll := (col.zip ans).map fun p => { p.1 with up := p.2 }
+def restoreUp (old new : Coll) : Coll := (new.zip old).map fun p => { p.1 with up := p.2.up }
+
+/-- one event of a routed call: `[x][u|d][O|E|T|B]` (absent letters: no dial needed / no call made) -/
+def parseEv (s : String) : Option Ev :=
+  let cs := s.toList
+  let dies := cs.contains 'x'
+  let dial := cs.contains 'u'
+  let call := if cs.contains 'O' then CallEv.ok else if cs.contains 'E' then .remoteErr else if cs.contains 'T' then .timeout else if cs.contains 'B' then .broken else .ok
+  if cs.all (fun c => "xudOETB".toList.contains c) && !cs.isEmpty then some ⟨dies, dial, call⟩ else none
+
+def showRoute (o : RouteOut) : String :=
+  let res := match o.res with
+    | .ret none => "nil" | .ret (some .dial) => "dial" | .ret (some .call) => "call" | .ret (some .timeout) => "timeout" | .running => "running"
+  let cache := match o.st.cache with | .none => "none" | .live => "live" | .dead => "dead"
+  s!"res={res} handled={o.st.answeredOk + o.st.answeredErr} lost={o.st.lost} dials={o.st.dials} cache={cache}"
 
 def showShard (sh : Shard) : String :=
   if !sh.up then "x" else
@@ -81,13 +104,14 @@ def showShard (sh : Shard) : String :=
 def stepLine (st : St) (line : String) : St × String :=
   let toks := (line.trimAscii.toString.splitOn " ").filter (· ≠ "")
   match toks with
+  | "skip" :: _ => (st, "ok")
   | "curate" :: rest =>
     match kv rest "complete", (kv rest "all") >>= parseNats, (kv rest "succ") >>= parseNats with
     | some c, some all, some succ => (st, showFailed (curate all succ (c == "1")))
     | _, _, _ => (st, "bad-op")
   | "newcluster" :: rest =>
     match (kv rest "maxlimit") >>= (·.toNat?) with
-    | some m => ({ col := [], maxLimit := m }, "ok")
+    | some m => ({ col := [], maxLimit := m, retries := ((kv rest "retries") >>= (·.toNat?)).getD 1 }, "ok")
     | none => (st, "bad-op")
   | "insert" :: rest =>
     -- place=<shard index>:<id=val,…>|…  (where distributePoints put the new points: oracle)
@@ -112,25 +136,45 @@ def stepLine (st : St) (line : String) : St × String :=
     | some l => ({ st with col := st.col.mapIdx fun j sh => if l.contains j then { sh with up := false } else sh }, "ok")
     | none => (st, "bad-op")
   | "update" :: rest =>
-    match (kv rest "pts") >>= parsePts with
-    | some req =>
+    match (kv rest "pts") >>= parsePts, (kv rest "ans").map parseAns with
+    | some req, none =>
       let r := updatePoints st.col req
       ({ st with col := r.col }, showFailed r.failed)
-    | none => (st, "bad-op")
+    | some req, some (some ans) =>
+      if ans.length ≠ st.col.length then (st, "bad-ans") else
+      let r := updatePoints (withAns st.col ans) req
+      -- `inconclusive=1`: the harness does not judge the answer of this run (starved process); the
+      -- state still follows the shards that did run their handler
+      ({ st with col := restoreUp st.col r.col }, if (kv rest "inconclusive").isSome then "inconclusive" else showFailed r.failed)
+    | _, _ => (st, "bad-op")
   | "delete" :: rest =>
-    match (kv rest "ids") >>= parseNats with
-    | some ids =>
+    match (kv rest "ids") >>= parseNats, (kv rest "ans").map parseAns with
+    | some ids, none =>
       let r := deletePoints st.col ids
       ({ st with col := r.col }, showFailed r.failed)
-    | none => (st, "bad-op")
+    | some ids, some (some ans) =>
+      if ans.length ≠ st.col.length then (st, "bad-ans") else
+      let r := deletePoints (withAns st.col ans) ids
+      ({ st with col := restoreUp st.col r.col }, if (kv rest "inconclusive").isSome then "inconclusive" else showFailed r.failed)
+    | _, _ => (st, "bad-op")
+  | "route" :: rest =>
+    match kv rest "cache", ((kv rest "evs").map fun s => (splitNE s ",").mapM parseEv) with
+    | some c, some (some evs) =>
+      let cache := if c == "live" then Cache.live else if c == "dead" then .dead else .none
+      (st, showRoute (routeFrom st.retries cache evs))
+    | _, _ => (st, "bad-op")
   | ["state"] => (st, "shards " ++ (if st.col.isEmpty then "-" else "|".intercalate (st.col.map showShard)))
   | "search" :: rest =>
+    if (kv rest "inconclusive").isSome then (st, "inconclusive") else
     match (kv rest "limit") >>= (·.toNat?), (kv rest "offset") >>= (·.toNat?), kv rest "mode", (kv rest "answers") >>= parseAnswers with
     | some limit, some offset, some mode, some answers =>
       let opts := (splitNE ((kv rest "opts").getD "-") ",").map (· == "1")
       let le : Hit → Hit → Bool := if mode == "keys" then leKeys opts else leScore
-      -- the model's availability flags and the oracle's must agree
-      if answers.length ≠ st.col.length || (answers.zip st.col).any (fun p => p.1.isSome != p.2.up) then (st, "bad-answers") else
+      -- the model's availability flags (for an op under a fault: the measured `ans` bits) and the oracle's must agree
+      let ups : Option (List Bool) := match (kv rest "ans").map parseAns with
+        | none => some (st.col.map (·.up))
+        | some a => a
+      if ups.isNone || answers.length ≠ st.col.length || (answers.zip (ups.getD [])).any (fun p => p.1.isSome != p.2) || (ups.getD []).length ≠ st.col.length then (st, "bad-answers") else
       match searchPoints (sortBy le) heurF st.maxLimit answers limit offset with
       | none => (st, "err")
       | some r => (st, canon le (answers.flatMap fun a => a.getD []) r)
